@@ -390,7 +390,7 @@ class C07(Engine):
 		'every erroneous submission gets an error block, valid submissions after damaged ones equal a fresh process, disk and memory paths agree on Errors.Syntax, rendering never fails, termination. '
 		'distinct_nontrivial = distinct (text, path kind) inputs delivered')
 	quick_runs = 330
-	thorough_runs = 4000
+	thorough_runs = 10000
 	quick_budget_s = 90.0
 	thorough_budget_s = 1500.0
 	components_real = ['Interactive.run/rebuild_module', 'bin/io.tty', 'Modules/ModuleLoader', 'SyntaxParserOfLark (disk and in-memory branches)', 'all preprocessors', 'Reflections', 'Py2Cpp/Procedure', 'ErrorRender', 'Runner']
